@@ -30,7 +30,7 @@ Definition perr_code (e : perr) : Z :=
   | EInvalidChunkSize => 14 | EChunkMissingTerminator => 15 | EOutOfFuel => 99
   end%Z.
 
-Definition header := (bytes * bytes)%type.
+Notation header := (bytes * bytes)%type.
 
 Record cfg := {
   limit_request_line : Z;
@@ -247,7 +247,8 @@ Fixpoint te_vals (st : fstate) (vals : list bytes) : fstate + perr :=
       match classify v with
       | CChunked => if f_chunked st then inr EInvalidHeader
                     else te_vals {| f_chunked := true; f_cl := f_cl st; f_must_close := f_must_close st |} t
-      | CIdentity => if f_chunked st then inr EInvalidHeader else te_vals st t
+      | CIdentity => if f_chunked st then inr EInvalidHeader
+                     else te_vals {| f_chunked := f_chunked st; f_cl := f_cl st; f_must_close := true |} t
       | CCompress => if f_chunked st then inr EInvalidHeader
                      else te_vals {| f_chunked := f_chunked st; f_cl := f_cl st; f_must_close := true |} t
       | CUnknown => inr EUnsupportedTransferCoding
